@@ -134,6 +134,9 @@ class SegmentEnd:
     return "gfapy.SegmentEnd({},{})".format(repr(self.segment),
                                             repr(self.end_type))
 
+  def __hash__(self):
+    return hash((self.name, self.end_type))
+
   def __eq__(self, other):
     if isinstance(other, list):
       other = SegmentEnd(other)
